@@ -87,3 +87,51 @@ def _(p):
                     if c.shape != rc.shape or not numpy.allclose(c, rc, rtol=1e-12, atol=1e-12):
                         return f"cells-differ: {formula!r} efr={efr} {tag} differs from model_matrix/pandas"
     return None
+
+
+def _c10_frame(a=None, b=None):
+    import pandas
+
+    n = mc.NROWS
+    a = a if a is not None else [float(i + 2) for i in range(n)]
+    b = b if b is not None else [float(3 * i + 1) % 7 + 0.5 for i in range(n)]
+    df = mc.full_frame(a, b)
+    df["K"] = pandas.Categorical(["k"] * n)
+    return df
+
+
+@replay("c10_meta")
+def _(p):
+    from formulaic import model_matrix
+    from .c10_meta import metadata_findings as metadata_findings_native
+
+    df = _c10_frame()
+    mm = model_matrix(p["formula"], df, ensure_full_rank=p["efr"], output=p["output"])
+    found = metadata_findings_native(mm, p["output"], p["terms"])
+    for tag, msg in found:
+        if p.get("tag") in (None, tag):
+            return f"{tag}: {p['formula']!r} ensure_full_rank={p['efr']}: {msg}"
+    return None
+
+
+@replay("c10_subset")
+def _(p):
+    from formulaic import Formula, model_matrix
+
+    df = _c10_frame(p["a"], p["b"])
+    mm = model_matrix(p["formula"], df, ensure_full_rank=p["efr"], output=p["output"])
+    labels, cells = mc.matrix_cells(mm, p["output"])
+    import itertools
+
+    fam = p["terms"]
+    tix = {repr(t): idx for t, idx in mm.model_spec.term_indices.items()}
+    for S in [[t] for t in fam] + [list(q) for q in itertools.permutations(fam, 2)]:
+        want = [j for s in S for j in tix[repr(list(Formula([s]))[0])]]
+        sub = mm.model_spec.subset(S)
+        sm = sub.get_model_matrix(df)
+        sl, sc = mc.matrix_cells(sm, p["output"])
+        if sorted(sl) != sorted(labels[j] for j in want):
+            return f"subset-columns: subset({S}) of {p['formula']!r} has columns {sl}, parent's are {[labels[j] for j in want]}"
+        if want and not numpy.allclose(numpy.asarray(sc, dtype=float), numpy.asarray(cells[:, [labels.index(nm) for nm in sl]], dtype=float)):
+            return f"subset-cells: subset({S}) of {p['formula']!r} regenerates different values"
+    return None
